@@ -27,6 +27,7 @@ def instances(tier, seed):
         out.append(dict(name=name, **kw))
     for pat in ['CH->CF', 'CH->NOO', 'CH->nothing', 'CH->C', 'CH->full']:
         add(f"atoms:{pat}:M2", pattern=pat, N=5, M=2, cost=20)
+    add("atoms:CH->CF-offset:M1", pattern='CH->CF-offset', N=3, M=1, cost=5)
     add("atoms:CH->CF:M2:replace_all", pattern='CH->CF', N=5, M=2, replace_all=True, cost=20)
     add("atoms:CH->CH-moved:M1", pattern='CH->CH-moved', N=3, M=1, cost=5)
     add("atoms:CHH->CHH:M1", pattern='CHH->CHH', N=4, M=1, cost=10)
